@@ -170,6 +170,8 @@ class RefBusPeer(RefSaslClient):
         self.unique = None
         self.hello_serial = None
         self.on_message = None
+        self.say_hello = True        # False: never says Hello by itself; learns its unique name
+        #                              from the destination of the first message addressed to it
 
     def next_serial(self):
         self.serial += 1
@@ -177,7 +179,7 @@ class RefBusPeer(RefSaslClient):
 
     def line(self, line):
         RefSaslClient.line(self, line)
-        if self.begun and self.hello_serial is None:
+        if self.begun and self.hello_serial is None and self.say_hello:
             m = rc.Msg(rc.METHOD_CALL, self.next_serial(),
                        {rc.F_PATH: '/org/freedesktop/DBus', rc.F_INTERFACE: 'org.freedesktop.DBus',
                         rc.F_MEMBER: 'Hello', rc.F_DESTINATION: 'org.freedesktop.DBus'})
@@ -204,6 +206,9 @@ class RefBusPeer(RefSaslClient):
             if (m.mtype == rc.METHOD_RETURN and self.unique is None
                     and m.fields.get(rc.F_REPLY_SERIAL) == self.hello_serial):
                 self.unique = m.body[0] if m.body else None
+            if (self.unique is None and not self.say_hello
+                    and str(m.fields.get(rc.F_DESTINATION) or '').startswith(':')):
+                self.unique = m.fields[rc.F_DESTINATION]
             self.messages.append(m)
             if self.on_message:
                 self.on_message(m)
@@ -314,10 +319,11 @@ class BusRig:
                                 % (obs.fired, [(w, x, repr(e)) for w, x, e in self.sim.exceptions]))
         return rec
 
-    def add_peer(self, unix=False, calm=True):
+    def add_peer(self, unix=False, calm=True, hello=True):
         self.n += 1
         name = 'r%d' % self.n
         peer = RefBusPeer(name)
+        peer.say_hello = hello
         conn = net.Connection(self.sim, name, None, self.node, unix=unix,
                               creds=(4000 + self.n, 1000, 1000) if self.creds else None)
         sp = self._server_proto(name)
@@ -328,6 +334,15 @@ class BusRig:
         self.clients.append(rec)
         if calm:
             self.calm()
+            if not hello:
+                # no Hello: the first message is a call to the bus, which the bus serves; its
+                # reply tells the peer the unique name it was given
+                peer.bus_call('GetId')
+                self.calm()
+                if peer.unique is None:
+                    raise Violation(self.prop + '/attach', 'no unique name before Hello',
+                                    'a connection that has not said Hello called the bus; the reply '
+                                    'names no destination: %r' % [m.describe() for m in peer.messages])
             if peer.unique is None:
                 raise Violation(self.prop + '/attach', 'reference peer cannot attach',
                                 'reference peer could not attach: lines %r, exceptions %r'
